@@ -215,7 +215,8 @@ class Accumulate(Harness):
         W = bv.W
         nfiles = 1 + ctx.choose("nfiles", 2)
         counts = [1 + ctx.choose(f"cnt{f}", 3) for f in range(nfiles)]
-        mismatch = ctx.choose("mismatch", 2) == 1
+        mm = ctx.choose("mismatch", 3)          # 0: none; 1: the last packet has an extra field; 2: the last packet has a differently NAMED field (same count)
+        mismatch = mm != 0
         use_raw = ctx.choose("raw", 2) == 1
         A, B = 17, 300
         pk_by_file, allp = [], []
@@ -228,7 +229,7 @@ class Accumulate(Harness):
                 val = lib.common.IntParameter(1000 + serial, (5000 + serial) if serial else 0)      # the first packet's raw value is 0 (falsy)
                 items = {"X": val}
                 if mismatch and serial == sum(counts) - 1:
-                    items = {"X": lib.common.IntParameter(60000, 64000), "EXTRA": lib.common.IntParameter(7)}
+                    items = {"X": lib.common.IntParameter(60000, 64000), "EXTRA": lib.common.IntParameter(7)} if mm == 1 else {"Y": lib.common.IntParameter(60000, 64000)}
                 p = StubPacket(items, bv.SymInt(ap, nb=11, nonneg=True))
                 lst.append(p)
                 allp.append((ap, serial, p))
@@ -239,7 +240,8 @@ class Accumulate(Harness):
             def __init__(self):
                 param = lib.parameters.Parameter("X", lib.parameter_types.IntegerParameterType("T", lib.encodings.IntegerDataEncoding(16, "unsigned")))
                 ex = lib.parameters.Parameter("EXTRA", lib.parameter_types.IntegerParameterType("T2", lib.encodings.IntegerDataEncoding(8, "unsigned")))
-                super().__init__([lib.containers.SequenceContainer("CCSDSPacket", [param, ex])])
+                yy = lib.parameters.Parameter("Y", lib.parameter_types.IntegerParameterType("T3", lib.encodings.IntegerDataEncoding(16, "unsigned")))
+                super().__init__([lib.containers.SequenceContainer("CCSDSPacket", [param, ex, yy])])
                 self.calls = 0
 
             def packet_generator(self, f, **kw):
@@ -275,7 +277,7 @@ class Accumulate(Harness):
             last_a = apv[-1]
             seen_before = last_a in apv[:-1]
             obl.append(("ValueError only for a field-set mismatch within one APID", exc == "ValueError" and mismatch and seen_before))
-            return result("exc:" + exc, obl, observe={"exc": exc, "cls": "ran"}, inputs={"nfiles": nfiles, "counts": counts, "mismatch": mismatch, "raw": use_raw, "apids": apv})
+            return result("exc:" + exc, obl, observe={"exc": exc, "cls": "ran"}, inputs={"nfiles": nfiles, "counts": counts, "mismatch": mismatch, "mm": mm, "raw": use_raw, "apids": apv})
         if mismatch and apv[-1] in apv[:-1]:
             obl.append(("field-set mismatch within one APID rejected", False))
         want = {}
@@ -289,11 +291,11 @@ class Accumulate(Harness):
         if ok_shape:
             for a, ds in out.items():
                 a_c = a if isinstance(a, int) else m.eval(a.t, model_completion=True).as_signed_long()
-                arr = ds.get("X")
+                arr = ds.get("X") or ds.get("Y")
                 got[a_c] = [bv.model_int(m, x) if isinstance(x, bv.SymInt) else x for x in (arr[1][1] if arr else [])]
         obl.append((f"rows per APID in stream order: want {want}, got {got}", ok_shape and got == want))
         return result("dataset", obl, observe={"exc": None, "cls": "ran", "row_counts": {str(k): len(v) for k, v in sorted(got.items())}},
-                      inputs={"nfiles": nfiles, "counts": counts, "mismatch": mismatch, "raw": use_raw, "apids": apv})
+                      inputs={"nfiles": nfiles, "counts": counts, "mismatch": mismatch, "mm": mm, "raw": use_raw, "apids": apv})
 
 
 class StubRaw:
@@ -439,23 +441,28 @@ def concrete(req):
     from space_packet_parser import xarr
     K = lib.calibrators
     cal = K.PolynomialCalibrator([K.PolynomialCoefficient(2.5, 0), K.PolynomialCoefficient(0.5, 1)])
-    param = lib.parameters.Parameter("X", lib.parameter_types.IntegerParameterType("T", lib.encodings.IntegerDataEncoding(16, "unsigned", default_calibrator=cal)))
+    def p16(name):
+        return lib.parameters.Parameter(name, lib.parameter_types.IntegerParameterType(name + "_T", lib.encodings.IntegerDataEncoding(16, "unsigned", default_calibrator=cal)))
     hdr = lib.parameters.Parameter("H", lib.parameter_types.BinaryParameterType("HT", lib.encodings.BinaryDataEncoding(fixed_size_in_bits=48)))
+    sel = lib.parameters.Parameter("SEL", lib.parameter_types.IntegerParameterType("SEL_T", lib.encodings.IntegerDataEncoding(8, "unsigned")))
     extra = lib.parameters.Parameter("EXTRA", lib.parameter_types.IntegerParameterType("T2", lib.encodings.IntegerDataEncoding(8, "unsigned")))
-    root = lib.containers.SequenceContainer("CCSDSPacket", [hdr, param], abstract=False)
-    child = lib.containers.SequenceContainer("WITH_EXTRA", [extra], base_container_name="CCSDSPacket",
-                                             restriction_criteria=[lib.comparisons.Comparison("60000", "X", operator=">=", use_calibrated_value=False)])
-    root.inheritors.append("WITH_EXTRA")
-    d = lib.definitions.XtcePacketDefinition([root, child])
+    root = lib.containers.SequenceContainer("CCSDSPacket", [hdr, sel], abstract=True)
+    C = lib.comparisons
+    kids = [lib.containers.SequenceContainer("CX", [p16("X")], base_container_name="CCSDSPacket", restriction_criteria=[C.Comparison("0", "SEL", use_calibrated_value=False)]),
+            lib.containers.SequenceContainer("CXE", [p16("X"), extra], base_container_name="CCSDSPacket", restriction_criteria=[C.Comparison("1", "SEL", use_calibrated_value=False)]),
+            lib.containers.SequenceContainer("CY", [p16("Y")], base_container_name="CCSDSPacket", restriction_criteria=[C.Comparison("2", "SEL", use_calibrated_value=False)])]
+    kids[1].entry_list[0] = kids[0].entry_list[0]          # one Parameter object per name
+    root.inheritors += ["CX", "CXE", "CY"]
+    d = lib.definitions.XtcePacketDefinition([root] + kids)
     serial, files = 0, []
     total = sum(i["counts"])
     with tempfile.TemporaryDirectory(prefix="spv_c18_") as tmp:
         for f in range(i["nfiles"]):
             blob = b""
             for j in range(i["counts"][f]):
-                body = serial.to_bytes(2, "big")
+                body = b"\x00" + serial.to_bytes(2, "big")
                 if i["mismatch"] and serial == total - 1:
-                    body = (60000).to_bytes(2, "big") + b"\x07"
+                    body = (b"\x01" + (60000).to_bytes(2, "big") + b"\x07") if i.get("mm", 1) == 1 else (b"\x02" + (60000).to_bytes(2, "big"))
                 blob += bytes(lib.packets.create_ccsds_packet(body, apid=i["apids"][serial]))
                 serial += 1
             path = os.path.join(tmp, f"f{f}.bin")
@@ -467,7 +474,7 @@ def concrete(req):
                 ds = xarr.create_dataset(files, d, use_raw_values=i["raw"])
             except Exception as e:   # noqa: BLE001
                 return {"cls": "ran", "exc": type(e).__name__}
-            rows = {str(a): [float(v) for v in ds[a]["X"].values] for a in sorted(ds)}
+            rows = {str(a): [float(v) for v in (ds[a]["X"] if "X" in ds[a] else ds[a]["Y"]).values] for a in sorted(ds)}
     return {"cls": "ran", "exc": None, "row_counts": {a: len(v) for a, v in rows.items()}, "rows_real": rows}
 
 
